@@ -21,46 +21,28 @@ variable {K : Type} [Field K] [LinearOrder K] [IsStrictOrderedRing K] [FloorRing
 
 /-! ### generated row names -/
 
-/-- no user-given row name is spelled like the name generated for some unnamed row of the model. -/
-def NoLookalike {α : Type} (rows : List (LinRow α)) : Prop :=
-  ∀ (i j : Nat) (ri rj : LinRow α), rows[i]? = some ri → rows[j]? = some rj →
-    ri.name.toList = [] → rj.name.toList ≠ [] → rj.name.toList ≠ 'c' :: natChars (i + 1)
-
-/-- Generated row names are unique: the name given to an unnamed row differs from the name of every
-other row — PROVIDED no user row is literally called `c<i+1>` for an unnamed row `i`
-(`generated_names_unique_counterexample` shows the proviso cannot be dropped: the export does not look
-at the user-given names). -/
-theorem generated_names_unique_partial {α : Type} (rows : List (LinRow α)) (h : NoLookalike rows)
+/-- **Generated row names are unique**: the name the export gives to an unnamed row differs from the
+name of every other row of the file — user-given or generated — for every list of rows.
+(An unnamed row `i` gets the first free one of `c{i+1}`, `c{i+1}_1`, `c{i+1}_2`, ….) -/
+theorem generated_names_unique {α : Type} (rows : List (LinRow α))
     (i j : Nat) (ri rj : LinRow α) (hi : rows[i]? = some ri) (hj : rows[j]? = some rj) (hij : i ≠ j)
     (hgen : ri.name.toList = []) :
-    (rowNames 0 rows)[i]? ≠ (rowNames 0 rows)[j]? := by
-  rw [rowNames_get rows 0 i ri hi, rowNames_get rows 0 j rj hj]
-  intro e
-  have e := Option.some.inj e
-  simp only [rowName, hgen, Nat.zero_add, List.isEmpty_nil, if_true] at e
-  by_cases hj' : rj.name.toList = []
-  · simp only [hj', List.isEmpty_nil, if_true, List.cons.injEq, true_and] at e
-    exact hij (by have := natChars_inj e; omega)
-  · have hne : rj.name.toList.isEmpty = false := by
-      cases hl : rj.name.toList with
-      | nil => exact absurd hl hj'
-      | cons _ _ => rfl
-    simp only [hne, Bool.false_eq_true, if_false] at e
-    exact h i j ri rj hi hj hgen hj' e.symm
+    (rowNames rows)[i]? ≠ (rowNames rows)[j]? :=
+  rowNamesFrom_unique (userNames rows) 0 rows (mem_userNames rows) i j ri rj hi hj hij hgen
 
-/-- hypotheses of `generated_names_unique_partial` are satisfiable (two unnamed rows, one named `a`). -/
-example : NoLookalike ([⟨"", [1], .le, 1⟩, ⟨"a", [1], .le, 1⟩, ⟨"", [1], .le, 1⟩] : List (LinRow Int)) := by
-  intro i j ri rj hi hj hgen hnamed
-  match j, hj with
-  | 0, hj => simp at hj; subst hj; simp at hnamed
-  | 1, hj => simp at hj; subst hj; simp
-  | 2, hj => simp at hj; subst hj; simp at hnamed
-  | (n+3), hj => simp at hj
+/-- user-given names are exported unchanged -/
+theorem user_names_kept {α : Type} (rows : List (LinRow α)) (i : Nat) (ri : LinRow α) (hi : rows[i]? = some ri)
+    (hn : ri.name.toList ≠ []) : (rowNames rows)[i]? = some ri.name.toList :=
+  rowNamesFrom_named (userNames rows) 0 rows i ri hi hn
 
-/-- The export gives two rows the same name: a user row called `c2` followed by an unnamed second
-row are both exported as `c2` (replayed against the real `to_lp_format`: known finding C17-rownames). -/
-theorem generated_names_unique_counterexample :
-    rowNames 0 ([⟨"c2", [1], .ge, 1⟩, ⟨"", [1], .le, 3⟩] : List (LinRow Int)) = ["c2".toList, "c2".toList] := by
+/-- regression: a user row called `c2` followed by an unnamed second row — the export used to call
+both `c2`; the unnamed row is now `c2_1`. -/
+example : rowNames ([⟨"c2", [1], .ge, 1⟩, ⟨"", [1], .le, 3⟩] : List (LinRow Int)) = ["c2".toList, "c2_1".toList] := by
+  decide
+
+/-- regression: when `c2_1` is taken as well the next candidate is used; other rows keep `c{i+1}`. -/
+example : rowNames ([⟨"c2", [1], .ge, 1⟩, ⟨"", [1], .le, 3⟩, ⟨"c2_1", [1], .le, 3⟩, ⟨"", [1], .le, 4⟩] : List (LinRow Int))
+    = ["c2".toList, "c2_2".toList, "c2_1".toList, "c4".toList] := by
   decide
 
 /-! ### bounds -/
